@@ -19,9 +19,12 @@ import CpModel.Pipeline
     only the original request can carry one, redirect targets never do), `RuntimeError` on a repeated URL after `ir.request.close()` (a no-op: the request
     was closed by `AppResponse.__init__`), the redirected request is a `GET` with an empty body.
   * `_TrappedResponse`: `trap` around the call and around every `next`; an exception becomes
-    `bare_error` with the traceback iff `cherrypy.request.show_tracebacks` **of whatever request is
-    current at that moment** — the class default (`True`) once `release_serving` ran (finding F1);
-    `start_response(s, h, exc_info)`; mid-stream the bare body is returned as one more chunk.
+    `bare_error` with the traceback iff `show_tracebacks` of the request being reported on: the current
+    request's while one is being served (mid-stream), and — once `release_serving` ran and
+    `cherrypy.request` is the default object (`app is None`) — the value the released request left in
+    `cherrypy.serving.released_show_tracebacks` (repair of finding F1; before it the class default
+    `True` was used); `start_response(s, h, exc_info)`; mid-stream the bare body is returned as one
+    more chunk.
   * the server: `reads = none` iterates to the end, `some m` calls `next` at most `m` times; then
     `closes` calls of `close()`.
   Not modelled: `start_response` / `write` raising, other middleware in `pipeline`, `VirtualHost`,
@@ -67,7 +70,7 @@ inductive Init where
   /-- constructed; `start_response` was called; the request (number `r`, page `pg`) is still being served -/
   | served (st : St)
   /-- an exception left `__init__` (after `self.close()`); `tb` = the `show_tracebacks` attribute the
-      released Request object had (bookkeeping for the statement of C01, not used by the code) -/
+      released Request object had (`release_serving` leaves it in `cherrypy.serving`) -/
   | raised (e : Exn) (tb : Bool)
   deriving Repr, Inhabited
 
@@ -157,8 +160,9 @@ def call (p : Plan) : Result :=
   | (j, .outOfFuel) => { j := j ++ List.replicate p.closes .closeCall, body := .empty, outOfFuel := true }
   | (j, .raised e tb) =>
     if trapCatches e then
-      -- the request was released: `cherrypy.request` is the class-default object, show_tracebacks = True
-      { j := j ++ [.start 500 true] ++ List.replicate p.closes .closeCall, body := .bare true,
+      -- the request was released: `cherrypy.request.app is None`, so `trap` uses the released request's
+      -- setting (`cherrypy.serving.released_show_tracebacks`)
+      { j := j ++ [.start 500 true] ++ List.replicate p.closes .closeCall, body := .bare tb,
         reqShowTb := tb, trappedAtInit := true }
     else { j := j, body := .empty, escaped := some e, reqShowTb := tb }
   | (j, .served st pg r) =>
